@@ -10,7 +10,6 @@ use fluent_bundle::FluentResource;
 use fluent_fallback::generator::{BundleGenerator, FluentBundleResult};
 use fluent_fallback::types::ResourceId;
 use fluent_fallback::{Bundles, LocalizationError};
-use futures::executor::block_on;
 use rustc_hash::FxHashSet;
 use std::cell::Cell;
 use std::rc::Rc;
@@ -27,6 +26,48 @@ struct Gen {
     specs: Rc<Vec<BSpec>>,
     built: Rc<Cell<usize>>,
     slow: bool,
+}
+
+/// a waker that only records that it was used
+struct Flag(std::sync::atomic::AtomicBool);
+impl std::task::Wake for Flag {
+    fn wake(self: std::sync::Arc<Self>) {
+        self.0.store(true, std::sync::atomic::Ordering::SeqCst);
+    }
+}
+
+thread_local! {
+    static STALLED: Cell<bool> = const { Cell::new(false) };
+}
+
+/// drive a request to completion by hand: poll, and poll again when its waker was used.  A request that answers Pending
+/// without anybody holding a used waker would sleep for ever under a real executor: recorded as STALLED (the request is
+/// then abandoned and the op's observation is `STALLED`).
+fn drive<F: std::future::Future>(f: F) -> Option<F::Output> {
+    let flag = std::sync::Arc::new(Flag(std::sync::atomic::AtomicBool::new(false)));
+    let waker = std::task::Waker::from(flag.clone());
+    let mut cx = std::task::Context::from_waker(&waker);
+    let mut f = Box::pin(f);
+    for _ in 0..100_000 {
+        if let std::task::Poll::Ready(r) = f.as_mut().poll(&mut cx) {
+            return Some(r);
+        }
+        if !flag.0.swap(false, std::sync::atomic::Ordering::SeqCst) {
+            STALLED.with(|s| s.set(true));
+            return None;
+        }
+    }
+    STALLED.with(|s| s.set(true));
+    None
+}
+
+/// a request that is started, polled ONCE and then dropped (a timeout wrapper, `select!`, a view that went away)
+fn poll_once_and_drop<F: std::future::Future>(f: F) {
+    let flag = std::sync::Arc::new(Flag(std::sync::atomic::AtomicBool::new(false)));
+    let waker = std::task::Waker::from(flag);
+    let mut cx = std::task::Context::from_waker(&waker);
+    let mut f = Box::pin(f);
+    let _ = f.as_mut().poll(&mut cx);
 }
 
 struct Seq {
@@ -131,8 +172,34 @@ fn run(payload: &str) -> String {
     let mut errors: Vec<LocalizationError> = vec![];
     let mut outs: Vec<String> = vec![];
     for op in ops {
-        let p: Vec<&str> = op.split(':').collect();
+        let mut p: Vec<&str> = op.split(':').collect();
         let before: Vec<String> = errors.iter().map(canon_loc_err).collect();
+        // `xv:`, `xvv:`, `xmm:` - the same request is first started, polled once and DROPPED (cancelled), then made for real
+        if let [api, arg] = p.as_slice() {
+            if let Some(base) = api.strip_prefix('x') {
+                let mut scratch: Vec<LocalizationError> = vec![];
+                let ok = match base {
+                    "v" => parse_key(arg).map(|k| {
+                        let args = key_args(&k);
+                        poll_once_and_drop(bundles.format_value(&k.id, args.as_ref(), &mut scratch));
+                    }),
+                    "vv" => parse_keys(arg).map(|ks| {
+                        let keys = l10n_keys(&ks);
+                        poll_once_and_drop(bundles.format_values(&keys, &mut scratch));
+                    }),
+                    "mm" => parse_keys(arg).map(|ks| {
+                        let keys = l10n_keys(&ks);
+                        poll_once_and_drop(bundles.format_messages(&keys, &mut scratch));
+                    }),
+                    _ => None,
+                };
+                if ok.is_none() {
+                    outs.push("bad-op".to_string());
+                    continue;
+                }
+                p = vec![base, arg];
+            }
+        }
         let res: Option<String> = match p.as_slice() {
             ["clr"] => {
                 errors.clear();
@@ -143,12 +210,15 @@ fn run(payload: &str) -> String {
                 // cfg:q - a second, identical request is in flight on the same Bundles at the same time
                 let args = key_args(&k);
                 let mut scratch: Vec<LocalizationError> = vec![];
-                let (r, r2) = block_on(async {
+                let (r, r2) = match drive(async {
                     futures::join!(
                         bundles.format_value(&k.id, args.as_ref(), &mut errors),
                         bundles.format_value(&k.id, args.as_ref(), &mut scratch)
                     )
-                });
+                }) {
+                    Some(x) => x,
+                    None => return "STALLED".to_string(),
+                };
                 if show_val(&r2) != show_val(&r) {
                     format!("{} SHADOW-DISAGREE({})", show_val(&r), show_val(&r2))
                 } else {
@@ -158,9 +228,12 @@ fn run(payload: &str) -> String {
             ["vv", ks] if shadow => parse_keys(ks).map(|ks| {
                 let keys = l10n_keys(&ks);
                 let mut scratch: Vec<LocalizationError> = vec![];
-                let (r, r2) = block_on(async {
+                let (r, r2) = match drive(async {
                     futures::join!(bundles.format_values(&keys, &mut errors), bundles.format_values(&keys, &mut scratch))
-                });
+                }) {
+                    Some(x) => x,
+                    None => return "STALLED".to_string(),
+                };
                 if show_vals(&r2) != show_vals(&r) {
                     format!("{} SHADOW-DISAGREE({})", show_vals(&r), show_vals(&r2))
                 } else {
@@ -169,7 +242,10 @@ fn run(payload: &str) -> String {
             }),
             ["v", k] => parse_key(k).map(|k| {
                 let args = key_args(&k);
-                let r = block_on(bundles.format_value(&k.id, args.as_ref(), &mut errors));
+                let r = match drive(bundles.format_value(&k.id, args.as_ref(), &mut errors)) {
+                    Some(r) => r,
+                    None => return "STALLED".to_string(),
+                };
                 show_val(&r)
             }),
             ["vs", k] => parse_key(k).map(|k| {
@@ -181,7 +257,10 @@ fn run(payload: &str) -> String {
             }),
             ["vv", ks] => parse_keys(ks).map(|ks| {
                 let keys = l10n_keys(&ks);
-                let r = block_on(bundles.format_values(&keys, &mut errors));
+                let r = match drive(bundles.format_values(&keys, &mut errors)) {
+                    Some(r) => r,
+                    None => return "STALLED".to_string(),
+                };
                 show_vals(&r)
             }),
             ["vvs", ks] => parse_keys(ks).map(|ks| {
@@ -193,7 +272,10 @@ fn run(payload: &str) -> String {
             }),
             ["mm", ks] => parse_keys(ks).map(|ks| {
                 let keys = l10n_keys(&ks);
-                let r = block_on(bundles.format_messages(&keys, &mut errors));
+                let r = match drive(bundles.format_messages(&keys, &mut errors)) {
+                    Some(r) => r,
+                    None => return "STALLED".to_string(),
+                };
                 show_msgs(&r)
             }),
             ["mms", ks] => parse_keys(ks).map(|ks| {
